@@ -52,6 +52,10 @@ pub enum Act {
     QueryTree,
     /// schedule an extra self message (same instant burst)
     SelfMsg { delay_ns: u64 },
+    /// (rx rules only) re-send the very message object that was received on gate `gate`
+    Forward { gate: u32 },
+    /// wake task `to` of this module (through its inbox channel)
+    NotifyTask { to: u16 },
 }
 
 #[derive(Serialize, Deserialize, Clone, Debug, PartialEq, Eq, Hash)]
@@ -104,7 +108,22 @@ pub struct ModSpec {
     /// acts performed from at_sim_end (whatever they emit is never processed by this simulation)
     #[serde(default)]
     pub end_acts: Vec<Act>,
+    /// acts performed from at_sim_start(0), also on every restart
+    #[serde(default)]
+    pub start_acts: Vec<Act>,
+    /// at_sim_end returns an error
+    #[serde(default)]
+    pub end_err: bool,
 }
+
+#[derive(Debug)]
+pub struct ScriptedEndError;
+impl std::fmt::Display for ScriptedEndError {
+    fn fmt(&self, f: &mut std::fmt::Formatter<'_>) -> std::fmt::Result {
+        write!(f, "scripted at_sim_end failure")
+    }
+}
+impl std::error::Error for ScriptedEndError {}
 
 #[derive(Serialize, Deserialize, Clone, Debug, PartialEq, Eq, Hash)]
 pub struct BadNode {
@@ -222,6 +241,7 @@ pub fn uid_of(m: usize, site: usize, act: usize, inc: u16) -> u32 {
 }
 pub const RX_SITE_BASE: usize = 0x200;
 pub const END_SITE: usize = 0x1f0;
+pub const START_SITE: usize = 0x1e0;
 pub const PE_SITE_BASE: usize = 0x300;
 
 pub fn uid_parts(uid: u32) -> (usize, u16, usize, usize) {
@@ -342,6 +362,10 @@ impl ScriptMod {
                 let uid = uid_of(self.idx, site, ai, self.inc);
                 schedule_in(Message::default().kind(SELF_KIND).src(uid_to_src(uid)), Duration::from_nanos(*delay_ns));
             }
+            Act::Forward { .. } => {}
+            Act::NotifyTask { to } => {
+                crate::asy::notify_task(self.idx, *to as usize);
+            }
         }
         true
     }
@@ -420,6 +444,11 @@ impl Module for ScriptMod {
                 }
             }
             crate::asy::spawn_tasks(self.idx, self.inc, &self.prog);
+            for (ai, a) in spec.start_acts.iter().enumerate().take(8) {
+                if matches!(a, Act::Send { .. } | Act::SelfMsg { .. } | Act::Random | Act::NotifyTask { .. }) && !self.do_act(START_SITE, ai, a) {
+                    break;
+                }
+            }
         }
     }
 
@@ -486,6 +515,26 @@ impl Module for ScriptMod {
                 panic!("scripted panic in module {} while holding message {uid:#x}", self.idx);
             }
         }
+        // forwarding: the very message object that arrived is sent on
+        if let Some((ri, gate)) = spec.rx.iter().enumerate().find_map(|(ri, r)| match r.act {
+            Act::Forward { gate } if r.nth == self.rx_count => Some((ri, gate)),
+            _ => None,
+        }) {
+            if let Some((g, gi)) = self.gate_ref(gate) {
+                if g.kind() != GateKind::Transit {
+                    let nuid = uid_of(self.idx, RX_SITE_BASE + ri, 0, self.inc);
+                    let mut msg = msg;
+                    msg.header_mut().src = uid_to_src(nuid);
+                    let (busy, fin, has) = match g.channel() {
+                        Some(ch) => (ch.is_busy(), ch.transmission_finish_time().as_nanos() as u64, true),
+                        None => (false, 0, false),
+                    };
+                    rec(self.idx, Ev::Offer { uid: nuid, gate: gi as u16, len: msg.length() as u32, busy, fin_ns: fin, has_chan: has, delay_ns: 0 });
+                    send(msg, g);
+                    return;
+                }
+            }
+        }
         crate::bodies::on_receive(self.idx, uid, msg);
         for (ri, r) in spec.rx.iter().enumerate() {
             if r.nth == self.rx_count && !self.do_act(RX_SITE_BASE + ri, 0, &r.act) {
@@ -512,6 +561,9 @@ impl Module for ScriptMod {
             if matches!(a, Act::Send { .. } | Act::SelfMsg { .. } | Act::Random) && !self.do_act(END_SITE, ai, a) {
                 break;
             }
+        }
+        if self.spec().end_err {
+            return Err(RuntimeError::from(ScriptedEndError));
         }
         Ok(())
     }
@@ -572,6 +624,11 @@ impl ProcessingElement for ScriptPe {
         rec(self.m, Ev::PeIn { pe: self.id, uid, kind });
         if self.spec.send_hook == 2 {
             self.maybe_send(2, next_pe_send());
+        }
+        // mode 3: consume scripted self messages and wake a task instead (the handler never sees them)
+        if self.spec.mode == 3 && kind == SELF_KIND {
+            crate::asy::notify_task(self.m, uid as usize);
+            return None;
         }
         // beats are the module's own clockwork: never consumed or modified
         if kind >= SELF_KIND {
